@@ -156,6 +156,9 @@ func c18Case(res *core.Result, rng *rand.Rand, t reflect.Type, v reflect.Value, 
 			res.Violate("C18|url-enc-decoys|present-parameter-reported-missing", fmt.Sprintf("Url(%q) with a rule on parameter %q reports it as required although it is present and non-empty: %s", u, key, trunc(o.Err, 300)), map[string]string{"url": u, "key": key, "rules": rulesK, "returned": o.Err})
 		}
 		add("url-enc-decoys", o)
+		// a bare query string ("?k=v", no scheme / host / path)
+		bq := "?" + url.QueryEscape("k") + "=" + url.QueryEscape(s) + "&z=1"
+		add("url-bare-query", drive.Call(func() error { return valid.Url(bq, valid.RM{"k": rules}) }))
 	}
 	res.Eval()
 	// majority / reference for the witness
